@@ -159,6 +159,27 @@ def run(ctx):
            "dropping a single-child node must add its branch length to the length the recursive conversion reports for the child "
            "(which already includes any dropped nodes further down), not to the child's own branch length", one[0].lineno)
 
+    # three and more children: every child is converted itself (recursively) before it is hung under the new dividing nodes
+    ab_ = s.func("_as_binary")
+    rec_ = [c for c in ast.walk(ab_) if isinstance(c, ast.Call) and call_name(c) == "_as_binary"]
+    many_ = [c for c in rec_ if same_expr(c.args[0] if c.args else None, "child")]
+    copies_ = [c for c in ast.walk(ab_) if isinstance(c, ast.Call) and isinstance(c.func, ast.Attribute) and c.func.attr == "copy"]
+    ctx.ob("R3.binary-converts-every-child", TREE, "_as_binary", "_as_binary(child) for every child of a node with three or more children",
+           len(rec_) >= 3 and bool(many_) and not copies_,
+           "a child that is merely copied keeps its own multifurcations: the result of as_binary() still has nodes with more than two "
+           "children below the first level", ab_.lineno)
+    # an inner node may carry a label in front of its distance (`(a:1,b:2)95:0.3`): the distance is what follows the colon
+    fnw = s.func("TreeNode.from_newick")
+    from ..exprnorm import has_code as _hc
+    inner_blocks = [blk for x in ast.walk(fnw) for fld in ("body", "orelse") for blk in [getattr(x, fld, None)] if isinstance(blk, list)
+                    and any(isinstance(st, ast.Assign) and _hc(st, "label_and_distance = newick[subnewick_stop_i:]") for st in blk)]
+    ctx.need(len(inner_blocks) == 1, "the branch of from_newick that parses what follows an inner node")
+    inner_mod = ast.Module(body=list(inner_blocks[0]), type_ignores=[])
+    ctx.ob("R1.inner-node-distance", TREE, "TreeNode.from_newick", "label, distance = label_and_distance.split(':'); distance = float(distance)",
+           _hc(inner_mod, "label, distance = label_and_distance.split(':')") and _hc(inner_mod, "distance = float(distance)"),
+           "the text behind the closing parenthesis of an inner node is `label:distance`: parsing only texts that START with ':' drops the "
+           "branch length of every labelled inner node", fnw.lineno)
+
     # ---------------- R2 construction checks ---------------------------------------
     ti = s.func("Tree.__init__")
     rng = any(isinstance(st, ast.If) and any(isinstance(b, ast.Raise) for b in st.body)
@@ -231,6 +252,10 @@ def run(ctx):
            "the distance is the sum of branch lengths on both paths to the lowest common ancestor", dt.lineno)
 
     # ---------------- R4 clustering ------------------------------------------------------
+    # the caller's distance matrix is read, never written: the working copy is a copy whatever the dtype of the input
+    from ..lints import caller_arguments_untouched
+    for rel_ in (UPGMA, NJ):
+        caller_arguments_untouched(ctx, rel_, "R4.input-matrix-untouched", {}, 1)
     for rel, q, mat in ((UPGMA, "upgma", "distances_v"), (NJ, "neighbor_joining", "distances_v")):
         f = ctx.src(rel).func(q)
         t = ast.unparse(f)
